@@ -14,7 +14,8 @@ What is modelled (and what it abstracts of the Go memory model, https://go.dev/r
 * happens-before `HB tr i j` between positions of the execution: program order, the synchronisation
   order of a mutex (a release synchronises-before every later acquire of the same mutex, unless both
   are shared-mode: RUnlock does not order a later RLock), `go` statement before everything the new
-  goroutine does, transitivity.
+  goroutine does, a `signal` on a channel-like object (close / send / end of a once.Do body /
+  wg.Done) before every later `wait` on it (receive / return of once.Do / wg.Wait), transitivity.
 
 Ownership tokens.  kafka-go also synchronises by hand-off (a channel close/receive, `sync.Once`,
 `sync.WaitGroup`, "the Batch owns the Conn read lock until Close").  These are represented as
@@ -107,6 +108,8 @@ inductive Ev where
   | rel (t : Tid) (m : Mutex) (mode : Mode)
   | acc (t : Tid) (a : Access)
   | spawn (t : Tid) (child : Tid)
+  | signal (t : Tid) (c : Nat)   -- close(ch) / send / the end of f in once.Do(f) / wg.Done
+  | wait (t : Tid) (c : Nat)     -- the matching receive / return of once.Do / wg.Wait
 deriving DecidableEq, Repr
 
 def Ev.tid : Ev → Tid
@@ -114,6 +117,8 @@ def Ev.tid : Ev → Tid
   | .rel t _ _ => t
   | .acc t _ => t
   | .spawn t _ => t
+  | .signal t _ => t
+  | .wait t _ => t
 
 /-- state of one mutex: the exclusive holder, the multiset of shared holders -/
 structure MState where
@@ -139,6 +144,8 @@ def stepL (s : LState) : Ev → Option LState
       if t ∈ (s m).readers then some (s.set m { (s m) with readers := (s m).readers.erase t }) else none
   | .acc _ _ => some s
   | .spawn _ _ => some s
+  | .signal _ _ => some s
+  | .wait _ _ => some s
 
 def runL (s : LState) : List Ev → Option LState
   | [] => some s
@@ -167,6 +174,7 @@ inductive HB (tr : List Ev) : Nat → Nat → Prop where
   | sync {i j : Nat} {t u : Tid} {m : Mutex} {m₁ m₂ : Mode} :
       i < j → tr[i]? = some (.rel t m m₁) → tr[j]? = some (.acq u m m₂) → (m₁ = .excl ∨ m₂ = .excl) → HB tr i j
   | go {i j : Nat} {t c : Tid} {b : Ev} : i < j → tr[i]? = some (.spawn t c) → tr[j]? = some b → b.tid = c → HB tr i j
+  | chan {i j : Nat} {t u : Tid} {c : Nat} : i < j → tr[i]? = some (.signal t c) → tr[j]? = some (.wait u c) → HB tr i j
   | trans {i j k : Nat} : HB tr i j → HB tr j k → HB tr i k
 
 /-- a data race: two conflicting accesses by different threads, unordered by happens-before -/
